@@ -690,6 +690,10 @@ func checkC13(env *engine.Env, ci any) engine.Outcome {
 		ov := map[string]any{}
 		for _, f := range Formats {
 			ov[f] = map[string]any{"depends": []any{"only-" + f}}
+			if f != c.Key {
+				// the other formats' blocks name scripts that exist on their build hosts only
+				ov[f].(map[string]any)["scripts"] = map[string]any{"preinstall": filepath.Join(work, "only-on-the-"+f+"-build-host.sh"), "postremove": filepath.Join(work, "no", "such", "dir", "post.sh")}
+			}
 		}
 		doc["overrides"] = ov
 		// entries addressed to the OTHER packagers, their sources absent on this host: none of this format's business
